@@ -1,7 +1,7 @@
 // Real serve loop mode of the C35 harness (HARDENING pattern 2: drive the outermost real entry point).
 //
 //	op = r=<advMaxStreams>;<ev>;...     events: H K D R S Sa Si G U Y C X Z A (as in the scripted mode, no ch*/te kinds), and
-//	     F<id> / P<id>: the handler of stream id (blocked since its request arrived) returns / panics,   Q graceful shutdown
+//	     F<id>: the handler of stream id (blocked since its request arrived) returns,   Q graceful shutdown
 //
 // Server.ServeConn runs on a net.Pipe with its own goroutines (serve, readFrames, writeFrames, handlers); the client
 // writes one event, then waits for quiescence WITHOUT timing (handler finished => PING round trips, see C38) and
@@ -131,7 +131,7 @@ func execReal(op string) string {
 	var seq uint64
 	var want [8]byte
 	drainUntilAck := func() bool { // false: connection ended
-		timeout := time.After(30 * time.Second)
+		timeout := time.After(300 * time.Second)
 		for {
 			select {
 			case e := <-evc:
@@ -183,7 +183,7 @@ func execReal(op string) string {
 		mu.Lock()
 		w := writers[id]
 		mu.Unlock()
-		deadline := time.Now().Add(30 * time.Second)
+		deadline := time.Now().Add(300 * time.Second)
 		for !bfe_http2.VerifC38HandlerFinished(w) {
 			if time.Now().After(deadline) {
 				return false
@@ -293,7 +293,11 @@ func execReal(op string) string {
 			cl.DataPadded(id, n, f[2] == "1", pad)
 		case e[0] == 'R' && len(f) == 1:
 			cl.Rst(id)
-		case (e[0] == 'F' || e[0] == 'P') && len(f) == 1:
+		case e[0] == 'P':
+			// not in this mode: a panicking handler goroutine hands its RST_STREAM over from a deferred function and
+			// offers no point to wait for, so when the frame arrives would depend on scheduling (scripted mode covers P)
+			return "bad-op"
+		case e[0] == 'F' && len(f) == 1:
 			if !blocked[id] {
 				outs = append(outs, "nohandler")
 				continue
@@ -310,7 +314,7 @@ func execReal(op string) string {
 			}
 			if e[0] == 'P' { // the panicking goroutine hands its RST to the serve loop before it ends: a PING round trip
 				ping() // is not ordered after it, so wait until the stream has left the map
-				deadline := time.Now().Add(30 * time.Second)
+				deadline := time.Now().Add(300 * time.Second)
 				for real.Live(id) && !dead && time.Now().Before(deadline) {
 					ping()
 				}
@@ -320,7 +324,7 @@ func execReal(op string) string {
 		}
 		if e == "Q" { // the serve loop picks closeNotifyCh up asynchronously: wait for its GOAWAY (or see that one was sent before)
 			if !gaSeen {
-				deadline := time.Now().Add(30 * time.Second)
+				deadline := time.Now().Add(300 * time.Second)
 				for ga < 0 && !dead && time.Now().Before(deadline) {
 					ping()
 				}
@@ -331,7 +335,7 @@ func execReal(op string) string {
 			select {
 			case <-get(entered, id):
 				blocked[id] = true
-			case <-time.After(30 * time.Second):
+			case <-time.After(300 * time.Second):
 				outs = append(outs, "HANG")
 				return strings.Join(outs, ",") + "|"
 			}
@@ -447,10 +451,6 @@ func genReal(r interface {
 			id := from(alive)
 			alive = del(alive, id)
 			evs = append(evs, fmt.Sprintf("F%d", id))
-		case x < 16:
-			id := from(alive)
-			alive = del(alive, id)
-			evs = append(evs, fmt.Sprintf("P%d", id))
 		default:
 			evs = append(evs, r.Pick("Sa", "S", "Si0", "Si100", "Si2147483648", "G0", "Ga", "G3", "A", "Q", "Z1", "C1", "X5",
 				fmt.Sprintf("U%d:%s", from(alive), r.Pick("1", "0", "2147483647")), "U0:5", "U0:0", "U0:2147483647",
